@@ -38,6 +38,7 @@ import (
 	"net/url"
 	"strings"
 	"sync"
+	"sync/atomic"
 	"time"
 
 	"git.torproject.org/pluggable-transports/snowflake.git/v2/common/event"
@@ -517,7 +518,19 @@ func (sf *SnowflakeProxy) runSession(sid string) {
 	}
 	dataChan := make(chan struct{})
 	dataChannelAdaptor := dataChannelHandlerWithRelayURL{RelayURL: relayURL, sf: sf}
-	pc, err := sf.makePeerConnectionFromOffer(offer, config, dataChan, dataChannelAdaptor.datachannelHandler)
+	// The token of this session is returned exactly once: by the data channel
+	// handler if it started serving the client, otherwise by this function
+	// when it gives up on the client. Whoever sets claimed first owns the token.
+	var claimed int32
+	handler := func(conn *webRTCConn, remoteAddr net.Addr) {
+		if !atomic.CompareAndSwapInt32(&claimed, 0, 1) {
+			// runSession gave up on this client; it closes the
+			// peer connection and returns the token
+			return
+		}
+		dataChannelAdaptor.datachannelHandler(conn, remoteAddr)
+	}
+	pc, err := sf.makePeerConnectionFromOffer(offer, config, dataChan, handler)
 	if err != nil {
 		log.Printf("error making WebRTC connection: %s", err)
 		tokens.ret()
@@ -526,6 +539,11 @@ func (sf *SnowflakeProxy) runSession(sid string) {
 	err = broker.sendAnswer(sid, pc)
 	if err != nil {
 		log.Printf("error sending answer to client through broker: %s", err)
+		if !atomic.CompareAndSwapInt32(&claimed, 0, 1) {
+			// the client received the answer and connected anyway
+			log.Println("Connection successful.")
+			return
+		}
 		if inerr := pc.Close(); inerr != nil {
 			log.Printf("error calling pc.Close: %v", inerr)
 		}
@@ -539,6 +557,11 @@ func (sf *SnowflakeProxy) runSession(sid string) {
 	case <-dataChan:
 		log.Println("Connection successful.")
 	case <-time.After(dataChannelTimeout):
+		if !atomic.CompareAndSwapInt32(&claimed, 0, 1) {
+			// the data channel opened just as the timer fired
+			log.Println("Connection successful.")
+			return
+		}
 		log.Println("Timed out waiting for client to open data channel.")
 		if err := pc.Close(); err != nil {
 			log.Printf("error calling pc.Close: %v", err)
